@@ -128,6 +128,15 @@ def find_function(target):
     mod, qual = target.split(":")
     mi = load(mod)
     node = mi.functions.get(qual)
+    if node is None and "." in qual:
+        # class-specialised target: a method the class inherits, verified against the contract stated for *this* class
+        # (its `self` is an instance of this class: calls on self resolve through this class first)
+        cls, meth = qual.rsplit(".", 1)
+        if cls in mi.classes:
+            r = resolve_method(mod + ":" + cls, meth)
+            if r:
+                m2, q2 = r.split(":")
+                return load(m2), load(m2).functions.get(q2)
     return mi, node
 
 
